@@ -282,11 +282,12 @@ Proof.
 Qed.
 
 Theorem step_refines c s o :
-  I1 s -> op_fresh c s o -> create_leaks c s o = false ->
+  I1 s -> op_fresh c s o ->
   I1 (snd (step c s o)) /\ fst (step c s o) <> RSpin /\
-  forall j, refs_of (snd (step c s o)) j = spec_step (refs_of s) o (fst (step c s o)) j.
+  forall j, refs_of (snd (step c s o)) j =
+            spec_step_u (refs_of s) o (fst (step c s o)) (create_undo c s o) j.
 Proof.
-  intros H1 HF NK.
+  intros H1 HF.
   assert (LK : forall t, fresh_alloc c s t ->
             I1 (snd (lookup_reply c s t)) /\ fst (lookup_reply c s t) <> RSpin /\
             (forall j, refs_of (snd (lookup_reply c s t)) j =
@@ -294,7 +295,8 @@ Proof.
             (match fst (lookup_reply c s t) with RIno _ | RHostErr => True | _ => False end)).
   { intros t F. destruct (lookup_reply c s t) as [rep s1] eqn:L. cbn [fst snd].
     exact (lookup_reply_refs _ _ _ _ _ H1 F L). }
-  destruct o as [p t|p t|i p t|p t ex ok|i n|l|plus ents| |root]; cbn [step op_fresh] in *.
+  destruct o as [p t|p t|i p t|p t ex ok|i n|l|plus ents| |root];
+    unfold spec_step_u, create_undo; cbn [step op_fresh] in *.
   - destruct (valid s p); [|cbn; repeat split; auto; discriminate].
     destruct t as [t|]; [|cbn; repeat split; auto; discriminate].
     destruct (LK t HF) as (A & B & C & D). repeat split; auto.
@@ -307,16 +309,20 @@ Proof.
     destruct t as [t|]; [|cbn; repeat split; auto; discriminate].
     destruct (LK t HF) as (A & B & C & D). repeat split; auto.
     intros j. rewrite C. destruct (fst (lookup_reply c s t)); cbn; try reflexivity; contradiction.
-  - unfold create_leaks in NK. cbn [step] in NK.
-    destruct (valid s p); [|cbn; repeat split; auto; discriminate].
-    destruct t as [t|]; [|cbn; repeat split; auto; discriminate].
+  - destruct t as [t|]; [|destruct (valid s p); cbn; repeat split; auto; discriminate].
+    destruct (valid s p); [|destruct ex; cbn; repeat split; auto; discriminate].
     destruct (LK t HF) as (A & B & C & D).
     destruct (lookup_reply c s t) as [rep s1] eqn:L. cbn [fst snd] in *.
-    destruct rep as [i|e| | |l|]; try contradiction; cbn [fst snd]; try (repeat split; auto; discriminate).
-    destruct ex.
-    + cbn [andb] in NK. destruct (dget s1 i) as [d|]; [destruct (i_safe d); [destruct ok|]|]; cbn [fst snd] in *;
-        try discriminate; repeat split; auto; discriminate.
-    + cbn. repeat split; auto; discriminate.
+    destruct rep as [i|e| | |l|]; try contradiction.
+    + assert (UNDO : I1 (forget_one c s1 i 1) /\
+                     forall j, refs_of (forget_one c s1 i 1) j = spec_forget (spec_give (refs_of s) i) i 1 j).
+      { split; [apply forget_I1; exact A|]. intros j. rewrite forget_refs. apply spec_forget_ext. exact C. }
+      destruct UNDO as [U1 U2].
+      destruct ex; cbn [fst snd].
+      * destruct (dget s1 i) as [d|]; [destruct (i_safe d); [destruct ok|]|]; cbn [fst snd];
+          repeat split; auto; discriminate.
+      * repeat split; auto; discriminate.
+    + destruct ex; cbn [fst snd]; repeat split; auto; discriminate.
   - cbn. repeat split; [apply forget_I1; exact H1|discriminate|]. intros j. apply forget_refs.
   - cbn [fst snd]. destruct (batch_forget_refs c l s (refs_of s) H1 (fun j => eq_refl)) as [A B].
     repeat split; [exact A|discriminate|exact B].
@@ -501,7 +507,11 @@ Proof.
     destruct (valid s p); [|exact SAME]. destruct t as [t|]; [|exact SAME].
     assert (A1 : 1 <= 1) by lia. specialize (LK t A1). destruct (lookup_reply c s t) as [rep s1]. cbn [snd] in LK.
     destruct rep; cbn [snd]; try exact LK.
-    destruct ex; [|exact LK]. destruct (dget s1 i) as [d|]; [destruct (i_safe d); [destruct ok|]|]; exact LK.
+    assert (FK : Bnd (forget_one c s1 i 1) /\ next_inode s <= next_inode (forget_one c s1 i 1) /\
+                 next_inode (forget_one c s1 i 1) <= next_inode s + 1).
+    { destruct LK as (X & Y & Z). destruct (forget_bnd c s1 i 1 X) as [X2 Y2]. rewrite Y2. auto. }
+    destruct ex; [|exact LK].
+    destruct (dget s1 i) as [d|]; [destruct (i_safe d); [destruct ok|]|]; cbn [snd]; first [exact LK|exact FK].
   - split; [exact I|]. cbn [snd]. destruct (forget_bnd c s i n B) as [X Y]. rewrite Y. split; [exact X|split; lia].
   - split; [exact I|]. cbn [snd]. clear SAME LK NW. revert s B. induction l as [|x r IH]; cbn; intros s B.
     + split; [exact B|split; lia].
@@ -537,7 +547,8 @@ Proof.
   - destruct (valid s p); [|exact R]. destruct t as [t|]; [|exact R].
     specialize (LK t). destruct (lookup_reply c s t) as [rep s1]. cbn [snd] in LK.
     destruct rep; try exact LK. destruct ex; [|exact LK].
-    destruct (dget s1 i) as [d|]; [destruct (i_safe d); [destruct ok|]|]; exact LK.
+    destruct (dget s1 i) as [d|]; [destruct (i_safe d); [destruct ok|]|]; cbn [snd];
+      first [exact LK|apply forget_root; exact LK].
   - apply forget_root; exact R.
   - cbn [snd]. clear LK. revert s R. induction l as [|x r IH]; cbn; intros s R; [exact R|].
     apply IH. apply forget_root; exact R.
